@@ -39,6 +39,8 @@ class Engine:
         self.ast = ast
         self.specs = specs            # registry (spec.Registry) or None
         self.safety = set(safety)     # enabled safety obligation kinds
+        import smt as _smt
+        _smt.AXIOMATIZER = self.structural_axioms
         self.obligations = []
         self.nfresh = itertools.count()
         self.base_arrays = {}
@@ -89,6 +91,45 @@ class Engine:
     def tag_of(self, name):
         if name not in self.tags: self.tags[name] = len(self.tags) + 1
         return self.tags[name]
+
+    def structural_axioms(self, exprs, quantified=False):
+        """the theory of object identity for the terms of a query: elem(v,i) and sub:key(r) are injective (inverse functions),
+        positive, tagged by their kind, and belong to the same outermost object as their owner. Terms built while a quantified
+        clause is instantiated get their axioms here (the state they were built in is gone by then)."""
+        fv = self.uf('elem_v', I, I); fi = self.uf('elem_i', I, I); tg = self.uf('tag', I, I); elem = self.uf('elem', I, I, I)
+        out = []
+        if quantified:
+            a, b = z3.Int('ax!v'), z3.Int('ax!i')
+            t = elem(a, b)
+            out.append(z3.ForAll([a, b], z3.And(fv(t) == a, fi(t) == b, t > 0, tg(t) == 1, self.uf('root', I, I)(t) == z3.If(a < 0, a, self.uf('root', I, I)(a))), patterns=[t]))
+            for name, f in list(self.ufs.items()):
+                if not name.startswith('sub:'): continue
+                key = name[4:]
+                finv = self.uf('subinv:' + key, I, I)
+                t = f(a)
+                out.append(z3.ForAll([a], z3.And(finv(t) == a, t > 0, tg(t) == self.tag_of(key) + 1, self.uf('root', I, I)(t) == z3.If(a < 0, a, self.uf('root', I, I)(a))), patterns=[t]))
+            return out
+        seen = set(); done = set()
+        def walk(e):
+            if e.get_id() in seen: return
+            seen.add(e.get_id())
+            if z3.is_quantifier(e):
+                return
+            if z3.is_app(e):
+                for c in e.children(): walk(c)
+                d = e.decl()
+                if d.kind() == z3.Z3_OP_UNINTERPRETED and e.num_args() > 0:
+                    nm = d.name()
+                    if nm == 'elem' and e.get_id() not in done:
+                        done.add(e.get_id())
+                        out.append(z3.And(fv(e) == e.arg(0), fi(e) == e.arg(1), e > 0, tg(e) == 1, self.root_of(e) == self.root_of(e.arg(0))))
+                    elif nm.startswith('sub:') and e.get_id() not in done:
+                        done.add(e.get_id())
+                        key = nm[4:]
+                        out.append(z3.And(self.uf('subinv:' + key, I, I)(e) == e.arg(0), e > 0, tg(e) == self.tag_of(key) + 1, self.root_of(e) == self.root_of(e.arg(0))))
+        for e in exprs:
+            if isinstance(e, z3.ExprRef): walk(e)
+        return out
 
     def axiom_once(self, st, term, mk):
         """add axioms about a freshly built UF application once per state lineage (by term identity)"""
@@ -1569,6 +1610,52 @@ class Engine:
             for k, v in s.heap.items():
                 if not (v is h0[k] or v.eq(h0[k])): return False
         return True
+
+    def st_SwitchStmt(self, n, st, fr):
+        """switch over an integer: one path per label (fall-through honoured), 'break' leaves the switch"""
+        if n.get('hasInit') or n.get('hasVar'): raise Unsupported('switch with init/var')
+        v = self.rv(n['inner'][0], st, fr)
+        body = n['inner'][1]
+        if body.get('kind') != 'CompoundStmt': raise Unsupported('switch body is not a block')
+        flat = []            # [(label value | 'default' | None, stmt)]
+        def add(x, labels):
+            k = x.get('kind')
+            if k == 'CaseStmt':
+                val = self.rv(x['inner'][0], st, fr)
+                add(x['inner'][-1], labels + [val])
+            elif k == 'DefaultStmt':
+                add(x['inner'][-1], labels + ['default'])
+            else:
+                flat.append((labels, x))
+        for c in body.get('inner', []):
+            if isinstance(c, dict) and 'kind' in c: add(c, [])
+        case_vals = [l for (labels, _) in flat for l in labels if not isinstance(l, str)]
+        has_default = any(isinstance(l, str) for (labels, _) in flat for l in labels)
+        results = []; normal = []
+        def run_from(pos, s):
+            cur = [s]
+            for (_, stmt) in flat[pos:]:
+                nxt = []
+                for s_ in cur:
+                    for (s2, o) in self.exec_stmt(stmt, s_, fr):
+                        if o is None: nxt.append(s2)
+                        elif o[0] == 'break': normal.append(s2)
+                        else: results.append((s2, o))
+                cur = nxt
+                if not cur: break
+            normal.extend(cur)
+        for pos, (labels, stmt) in enumerate(flat):
+            for l in labels:
+                s1 = st.clone()
+                if isinstance(l, str): s1.pc.append(z3.And(*[v != c for c in case_vals]) if case_vals else z3.BoolVal(True))
+                else: s1.pc.append(v == l)
+                if z3.is_false(z3.simplify(s1.pc[-1])): continue
+                run_from(pos, s1)
+        if not has_default:
+            s1 = st.clone(); s1.pc.append(z3.And(*[v != c for c in case_vals]) if case_vals else z3.BoolVal(True)); normal.append(s1)
+        if len(normal) > 1:
+            m, _ = merge_states(normal, base=self.base_for); normal = [m]
+        return [(s_, None) for s_ in normal] + results
 
     def st_BreakStmt(self, n, st, fr): return [(st, ('break',))]
     def st_ContinueStmt(self, n, st, fr): return [(st, ('continue',))]
